@@ -1,2 +1,193 @@
-(* Properties/C19.v -- placeholder, filled below *)
-From Verif Require Import Css.Counters Css.CounterScopes.
+(* Properties/C19.v -- Counters count and print as CSS Lists and Counter
+   Styles define.  Only statements, closed by `exact`, each followed by
+   Print Assumptions.
+
+   Models: Css/Counters.v (port of /repo/css/counters/counters.go after the
+   C19 `fix:` commits) and Css/CounterScopes.v (counter bookkeeping of
+   /repo/html/boxes/build.go).  Specifications: Css/CounterSpec.v (CSS Counter
+   Styles 3) and Css/CounterScopesSpec.v (CSS 2.1 12.4.1 / CSS Lists 3 section
+   4).  Check/C19.v ties the models to /repo on every run. *)
+From Verif Require Import Base.GoSem Css.Counters Css.CounterScopes Css.CounterSpec Css.CounterScopesSpec
+  Css.CounterAbs Css.CounterProofs Css.CounterTableProofs Css.CounterExtendsProofs Css.CounterTheorems
+  Css.CounterScopesProofs.
+From Coq Require Import List ZArith NArith Bool.
+Import ListNotations.
+Open Scope Z_scope.
+
+(* ------------------------------------------------------------------ the six algorithms, all integers, all symbol lists *)
+
+(* cyclic: symbols[(v-1) mod L] with the MATHEMATICAL mod, for every integer v *)
+Theorem C19_cyclic_spec : forall syms v,
+  repeating syms v = Ok (cyclic_repr (map symbol syms) v).
+Proof. exact repeating_spec. Qed.
+Print Assumptions C19_cyclic_spec.
+
+Theorem C19_fixed_spec : forall syms first v,
+  non_repeating syms first v = Ok (fixed_repr first (map symbol syms) v).
+Proof. exact non_repeating_spec. Qed.
+Print Assumptions C19_fixed_spec.
+
+Theorem C19_symbolic_spec : forall syms v,
+  symbolic syms v = Ok (symbolic_repr (map symbol syms) v).
+Proof. exact symbolic_spec. Qed.
+Print Assumptions C19_symbolic_spec.
+
+(* alphabetic = bijective numeration in base L: the digit list exists, has the value v, and is unique *)
+Theorem C19_alphabetic_bijective : forall syms v, 2 <= zlen syms -> 1 <= v ->
+  exists ds, alphabetic syms v = Ok (Some (digits_string (map symbol syms) 1 ds)) /\
+             alphabetic_digits (zlen syms) v ds /\
+             forall ds', alphabetic_digits (zlen syms) v ds' -> ds' = ds.
+Proof.
+  exact (fun syms v HL Hv =>
+    match alphabetic_spec syms v HL Hv with
+    | ex_intro _ ds (conj E D) =>
+        ex_intro _ ds (conj E (conj D (fun ds' D' =>
+          alphabetic_digits_unique' (zlen syms) v ds' ds
+            (Z.le_trans 1 2 (zlen syms) (Zle_bool_imp_le 1 2 eq_refl) HL) D' D)))
+    end).
+Qed.
+Print Assumptions C19_alphabetic_bijective.
+
+(* numeric = the unique positional representation of |v| in base L without leading zero *)
+Theorem C19_numeric_positional : forall syms v, 2 <= zlen syms ->
+  exists ds, numeric syms v = Ok (Some (digits_string (map symbol syms) 0 ds)) /\
+             numeric_digits (zlen syms) (Z.abs v) ds /\
+             forall ds', numeric_digits (zlen syms) (Z.abs v) ds' -> ds' = ds.
+Proof.
+  exact (fun syms v HL =>
+    match numeric_spec syms v HL with
+    | ex_intro _ ds (conj E D) =>
+        ex_intro _ ds (conj E (conj D (fun ds' D' =>
+          numeric_digits_unique (zlen syms) (Z.abs v) ds' ds HL D' D)))
+    end).
+Qed.
+Print Assumptions C19_numeric_positional.
+
+(* additive = the greedy decomposition of the specification; a zero weight
+   never divides; whenever a representation is produced the weights used sum to v *)
+Theorem C19_additive_spec : forall ts v,
+  Forall (fun a => 0 <= ad_w a) ts -> 0 <= v ->
+  additive ts v = Ok (additive_repr (abs_tuples ts) v).
+Proof. exact additive_spec. Qed.
+Print Assumptions C19_additive_spec.
+
+Theorem C19_additive_sum : forall ws v reps,
+  Forall (fun w => 0 <= w) ws -> 0 < v ->
+  additive_reps ws v = Some reps ->
+  length reps = length ws /\ Forall (fun q => 0 <= q) reps /\ weighted_sum ws reps = v.
+Proof. exact additive_sum. Qed.
+Print Assumptions C19_additive_sum.
+
+(* ------------------------------------------------------------------ generate a counter: range, negative, pad, fallback, extends *)
+
+(* for every table of @counter-style rules as css/validation produces them
+   (wf_table), every style name (defined or not) and every Go int but
+   MinInt64, RenderValue returns the string the specification defines *)
+Theorem C19_render_value_spec : forall c n v,
+  wf_table c -> in_i64 v ->
+  exists s, RenderValue c v n = Ok s /\ counter_repr (abs_table c) n v s.
+Proof. exact render_value_spec. Qed.
+Print Assumptions C19_render_value_spec.
+
+(* extends: the record resolveCounter builds is the style section 3.1.7 defines
+   (unknown targets and every participant of a cycle extend decimal) *)
+Theorem C19_extends_spec : forall c, wf_table c -> forall n d, lookup c n = Some d ->
+  exists d', (forall prev, mem n prev = false -> resolve_counter c n prev = Ok (Some d', n :: prev)) /\
+             resolved (abs_table c) n (absr d') /\ wfr d' /\ (is_extends d = false -> d' = d).
+Proof. exact resolve_counter_spec. Qed.
+Print Assumptions C19_extends_spec.
+
+Theorem C19_marker_spec : forall c n v,
+  wf_table c -> in_i64 v ->
+  exists s, RenderMarker c (SidName n) v = Ok s /\ marker_repr (abs_table c) n v s.
+Proof. exact render_marker_spec. Qed.
+Print Assumptions C19_marker_spec.
+
+(* ------------------------------------------------------------------ never panics, always terminates *)
+
+(* on EVERY table whose decimal is the predefined one and whose additive
+   weights are not negative (invalid styles, extends / fallback cycles,
+   unknown systems included), for every style reference and value: no
+   index / division / Repeat panic, and the fuel |table| + 4 suffices *)
+Theorem C19_render_value_total : forall c, total_table c -> forall v, in_i64 v ->
+  (forall n, exists s, RenderValue c v n = Ok s) /\
+  (forall sid, exists s, RenderValueStyle c v sid = Ok s) /\
+  (forall sid, exists s, RenderMarker c sid v = Ok s).
+Proof.
+  exact (fun c Ht v Hv => conj (fun n => RenderValue_total c Ht n v Hv)
+                         (conj (fun sid => RenderValueStyle_total c Ht sid v Hv)
+                               (fun sid => RenderMarker_total c Ht sid v Hv))).
+Qed.
+Print Assumptions C19_render_value_total.
+
+(* the extends loop ends on every table, cycles included, within |table| + 2 iterations *)
+Theorem C19_extends_fallback_terminate : forall c n prev,
+  exists r, resolve_counter c n prev = Ok r.
+Proof. exact resolve_counter_total. Qed.
+Print Assumptions C19_extends_fallback_terminate.
+
+(* the two defects of the unchanged tree (DESIGN section 6 #5, #6), on the
+   faithful model of the original functions: totality was false *)
+Theorem C19_cyclic_orig_refuted : exists syms v, repeating_orig syms v = Panic 258.
+Proof. exact (ex_intro _ [NS 1 [97%N]; NS 1 [98%N]] (ex_intro _ 0 eq_refl)). Qed.
+Print Assumptions C19_cyclic_orig_refuted.
+
+Theorem C19_additive_orig_refuted : exists ts v, additive_orig ts v = Panic 331.
+Proof. exact (ex_intro _ [Ad 5 (NS 1 [118%N]); Ad 2 (NS 1 [105%N]); Ad 0 (NS 1 [122%N])] (ex_intro _ 3 eq_refl)). Qed.
+Print Assumptions C19_additive_orig_refuted.
+
+(* ------------------------------------------------------------------ nesting of counters *)
+
+(* the traversal state (name -> stack, per-depth name sets) always denotes the
+   instance frames of the specification, its slice operations never panic,
+   and the generated texts are those of the specification *)
+Theorem C19_scopes_spec : forall c e st fs,
+  R st fs -> frames_ok fs -> fs <> [] ->
+  sim (length fs) (element_to_box c e st) (s_element c e fs).
+Proof. exact element_sim. Qed.
+Print Assumptions C19_scopes_spec.
+
+Theorem C19_build_spec : forall c root, build c root = s_build c root.
+Proof. exact build_spec. Qed.
+Print Assumptions C19_build_spec.
+
+(* counters() sees the instances outermost first, counter() the innermost one *)
+Theorem C19_counters_outermost_first : forall st fs, R st fs ->
+  forall n, cv_get (st_values st) n = instances fs n /\
+            (forall fr outer, fs = fr :: outer ->
+               instances fs n = instances outer n ++ match assoc fr n with Some v => [v] | None => [] end).
+Proof.
+  exact (fun st fs HR n => conj (R_get st fs HR n) (fun fr outer E => eq_ind_r (fun fs0 => instances fs0 n = _) eq_refl E)).
+Qed.
+Print Assumptions C19_counters_outermost_first.
+
+(* ------------------------------------------------------------------ the hypotheses are inhabited *)
+
+Definition ex_decimal : descr :=
+  Descr ns_zero ns_zero ns_zero ns_zero [] (Sys false s_numeric 0) 0 ns_zero
+        (map (fun x => NS 1 [x]) [48;49;50;51;52;53;54;55;56;57]%N) [] [] false.
+Definition ex_roman : descr :=
+  Descr ns_zero ns_zero ns_zero ns_zero [] (Sys false s_additive 0) 0 ns_zero []
+        [Ad 1000 (NS 1 [109%N]); Ad 900 (NS 1 [99;109]%N); Ad 500 (NS 1 [100%N]); Ad 400 (NS 1 [99;100]%N);
+         Ad 100 (NS 1 [99%N]); Ad 90 (NS 1 [120;99]%N); Ad 50 (NS 1 [108%N]); Ad 40 (NS 1 [120;108]%N);
+         Ad 10 (NS 1 [120%N]); Ad 9 (NS 1 [105;120]%N); Ad 5 (NS 1 [118%N]); Ad 4 (NS 1 [105;118]%N);
+         Ad 1 (NS 1 [105%N])] [Rg 1 3999] false.
+Definition s_roman : str := [114;111;109;97;110]%N.
+Definition ex_table : table := [En s_decimal ex_decimal; En s_roman ex_roman].
+
+Example C19_ex_wf : wf_table ex_table.
+Proof.
+  split.
+  - exists ex_decimal. repeat split; try reflexivity. vm_compute. discriminate.
+  - intros n d H. unfold ex_table in H. cbn [lookup] in H.
+    destruct (str_eqb s_decimal n).
+    + injection H as <-. split; [constructor|]. split; [vm_compute; discriminate|vm_compute; discriminate].
+    + destruct (str_eqb s_roman n); [|discriminate]. injection H as <-.
+      split; [repeat constructor; vm_compute; discriminate|].
+      split; [vm_compute; discriminate|vm_compute; discriminate].
+Qed.
+
+Example C19_ex_roman : RenderValue ex_table 1994 s_roman = Ok [109;99;109;120;99;105;118]%N   (* mcmxciv *)
+                    /\ RenderValue ex_table 4000 s_roman = Ok [52;48;48;48]%N                (* fallback: 4000 *)
+                    /\ RenderValue ex_table (-7) s_roman = Ok [45;55]%N.                     (* -7 *)
+Proof. vm_compute. auto. Qed.
